@@ -132,6 +132,8 @@ class Repo:
             if (isinstance(d, ast.Name) and d.id == "dataclass") or \
                (isinstance(d, ast.Call) and isinstance(d.func, ast.Name) and d.func.id == "dataclass"):
                 ci.is_dataclass = True
+        if "NamedTuple" in bases or "typing.NamedTuple" in bases:
+            ci.is_dataclass = True          # typing.NamedTuple: annotated fields, positional / keyword construction (tuple protocol not modelled)
         ci.is_enum = "Enum" in bases
         for item in node.body:
             if isinstance(item, ast.FunctionDef):
